@@ -71,7 +71,7 @@ func prep(s *source) *prepared {
 
 func variant(s *source, style string, bidx int) (src []byte, off int, ok bool) {
 	switch style {
-	case "asis":
+	case "asis", "shape":
 		return s.src, -1, true
 	case "allblk":
 		p := prep(s)
@@ -90,6 +90,10 @@ func variant(s *source, style string, bidx int) (src []byte, off int, ok bool) {
 		return nil, 0, false
 	}
 	off = p.bounds[bidx]
+	switch style {
+	case "rich", "ownrich", "indrich":
+		return insertAt(s.src, off, richText(style, s.id, bidx)), off, true
+	}
 	return insertAt(s.src, off, styleText(style, bidx)), off, true
 }
 
@@ -149,6 +153,8 @@ func styleClass(st string) string {
 		return "inline-block"
 	case "mblk":
 		return "multiline-block"
+	case "rich", "ownrich", "indrich":
+		return "rich-block"
 	case "line", "hash", "hash1":
 		return "line"
 	default:
@@ -168,7 +174,7 @@ func runJob(j job) (res result) {
 		res.impl = "skip-no-boundary"
 		return
 	}
-	if j.style != "asis" {
+	if j.style != "asis" && j.style != "shape" {
 		if _, _, err := parseFile(j.s, src); err != nil {
 			res.impl = "skip-invalid-variant"
 			res.counts = append(res.counts, "variant_invalid_"+j.style)
@@ -382,8 +388,18 @@ func search(f *vh.Flags, o *vh.Out) {
 			o.Count("sources_unparsable_" + kind)
 		}
 	}
-	// phase 1: every source as is + all-boundaries block-comment variant
+	// phase 0: exhaustive small scope of multi-line block-comment shapes x hosts
 	var jobs []job
+	for _, s := range shapeSources(thorough) {
+		jobs = append(jobs, job{s, "shape", -1})
+	}
+	o.Stats["block_comment_shapes"] = len(jobs)
+	runAll(jobs, o, time.Time{})
+	if atomic.LoadInt32(&hung) != 0 {
+		return
+	}
+	jobs = nil
+	// phase 1: every source as is + all-boundaries block-comment variant
 	for _, s := range srcs {
 		jobs = append(jobs, job{s, "asis", -1}, job{s, "allblk", -1})
 	}
@@ -446,6 +462,9 @@ func search(f *vh.Flags, o *vh.Out) {
 			s := pool[rr.Intn(len(pool))]
 			nb := len(prep(s).bounds)
 			st := styles[rr.Intn(len(styles))]
+			if rr.Chance(30) {
+				st = richStyles[rr.Intn(len(richStyles))]
+			}
 			if st == "hash1" && !rr.Chance(10) {
 				st = "hash"
 			}
